@@ -176,6 +176,8 @@ def run_one(rng, counters):
                         continue
                     if mode == "partial" and rng.random() < 0.35:
                         kept.add((r["chrom"], r["pos"], si))
+                        if "PS" in call and rng.random() < 0.25:
+                            call["PS"] = "."  # phased ('|') without a phase-set value: legal, one unnamed set
                         continue
                     a = sorted(call["GT"].split("|"))
                     call["GT"] = "/".join(a)
@@ -219,7 +221,12 @@ def run_one(rng, counters):
                     kind = ":multiallelic" if len(ri["alts"]) > 1 else ":duplicate-position" if prev_key == (ri["chrom"], ri["pos"]) else ""
                     if kind:
                         counters["prephased_checked" + kind.replace(":", "_").replace("-", "_")] = counters.get("prephased_checked" + kind.replace(":", "_").replace("-", "_"), 0) + 1
-                    if do != di:
+                    unnamed = ci.get("PS", ".") in (".", None)
+                    if unnamed and do is not None and do[1] == di[1]:
+                        # phased without a phase-set value in the input: the haplotype order must survive; which name the (unnamed) set
+                        # gets in the output - none, 0, or the set of the reads that cover the variant - is not an alteration of the phase
+                        counters["prephased_unnamed_kept"] = counters.get("prephased_unnamed_kept", 0) + 1
+                    elif do != di:
                         viol.append({"mech": "prephased-variant-altered" + (":lost" if do is None else "") + kind,
                                      "msg": "%s %s:%d was phased in the input (%r), result has %r (call %r)" % (s, ro["chrom"], ro["pos"], di, do, co)})
                     continue
